@@ -6,7 +6,8 @@
     functions by harness/src/bin/h_syntax (float_hypothesis) and named in the trusted base. *)
 From Coq Require Import List NArith ZArith Bool String.
 Import ListNotations.
-Require Import Verif.Base.Cases Verif.Syntax.Sexp Verif.Syntax.SexpProofs Verif.Syntax.Ast Verif.Syntax.AstProofs.
+Require Import Verif.Base.Cases Verif.gen.SyntaxFacts Verif.Syntax.Sexp Verif.Syntax.SexpProofs Verif.Syntax.Ast Verif.Syntax.AstProofs
+               Verif.Syntax.Tables Verif.Syntax.CmdProofs.
 Local Open Scope N_scope.
 
 (** the escape lemma at the heart: lexing the escaped form of ANY sequence of characters
@@ -122,6 +123,111 @@ Theorem c15_schedule_roundtrip_partial : forall s, flat (rewrap s) = flat s.
 Proof. exact flat_rewrap. Qed.
 Print Assumptions c15_schedule_roundtrip_partial.
 
+(** * Tier A: the lexer / printer / keyword tables regenerated from the Rust source
+    (gen/SyntaxFacts.v, rebuilt on every run from egglog-ast/src/generic_ast_helpers.rs and
+    src/ast/parse.rs) are the tables the model uses. *)
+
+(** the string-escape table of `Display for Literal` and the `(in_escape, c)` table of the lexer *)
+Theorem c15_escape_tables_regenerated :
+  (forall s, escape s = List.flat_map (fun c => match assoc printer_escape_table c with Some t => t | None => [c] end) s)
+  /\ (forall c, unescape c = assoc lexer_unescape_table c)
+  /\ c_quote = lexer_string_quote /\ c_bs = lexer_escape_intro /\ c_quote = printer_string_quote
+  /\ lexer_paren_tokens = [(c_lp, true); (c_rp, false)]
+  /\ (forall c, is_delim c = is_ws c || existsb (N.eqb c) lexer_other_delims)
+  /\ (forall fmt s, print_lit fmt (LStr s) = gen_print_string s)
+  /\ (forall fmt, print_lit fmt LUnit = printer_unit_text) /\ k_dot0 = printer_float_int_suffix.
+Proof.
+  split; [exact escape_gen|]. split; [exact unescape_gen|].
+  destruct lexer_chars_gen as (A & B & C & D & _).
+  repeat (split; [assumption|]). split; [exact is_delim_gen|]. split; [exact print_string_gen|].
+  split; [intro fmt; apply (print_misc_gen fmt) | apply (print_misc_gen (fun _ => []))].
+Qed.
+Print Assumptions c15_escape_tables_regenerated.
+
+(** the lexer reads back the text the REGENERATED printer table emits, for every string; and the two
+    regenerated tables are compatible as data *)
+Theorem c15_string_roundtrip_regenerated : forall s rest,
+  lex_string false (gen_escape s ++ lexer_string_quote :: rest) = POk (s, rest).
+Proof. exact gen_string_roundtrip. Qed.
+Print Assumptions c15_string_roundtrip_regenerated.
+
+Theorem c15_escape_tables_compatible : escape_tables_compatible = true.
+Proof. exact escape_tables_ok. Qed.
+
+(** the order in which a token is classified (true, false, i64, NaN, inf, -inf, finite f64, symbol) *)
+Theorem c15_classify_order_regenerated : forall parse_f64 s,
+  classify parse_f64 s = classify_by parse_f64 lexer_classify_order s.
+Proof. exact classify_gen. Qed.
+Print Assumptions c15_classify_order_regenerated.
+
+(** keyword tables: the heads of parse_command / parse_action / parse_schedule / parse_fact, in
+    source order, and what the `_` arm does *)
+Theorem c15_keyword_tables_regenerated :
+  List.map fst command_heads = hand_command_heads /\ command_fallback = FBAction
+  /\ List.map fst action_heads = hand_action_heads /\ action_fallback = FBExpr
+  /\ List.map fst schedule_heads = hand_schedule_heads /\ schedule_fallback = FBError
+  /\ List.map fst fact_heads = [k_eq] /\ fact_fallback = FBExpr.
+Proof. exact heads_gen. Qed.
+
+(** ... and the model parser dispatches exactly by them: a head outside the table falls through *)
+Theorem c15_command_dispatch : forall chk h tail,
+  is_head command_heads h = false ->
+  parse_command chk (SList (SAtom h :: tail)) =
+  bindM (parse_action chk (SList (SAtom h :: tail))) (fun a => ret (CAction a)).
+Proof. exact parse_command_fallback. Qed.
+Print Assumptions c15_command_dispatch.
+
+Theorem c15_action_dispatch : forall chk h tail,
+  is_head action_heads h = false ->
+  parse_action chk (SList (SAtom h :: tail)) =
+  bindM (parse_expr chk (SList (SAtom h :: tail))) (fun e => ret (AExpr e)).
+Proof. exact parse_action_fallback. Qed.
+
+Theorem c15_schedule_dispatch : forall chk h tail n,
+  is_head schedule_heads h = false -> parse_sched chk (SList (SAtom h :: tail)) n = PErr EGrammar.
+Proof. exact parse_sched_fallback. Qed.
+
+(** ... and a keyword arm rejects every tail length that none of the regenerated slice patterns of its
+    `match tail` accepts *)
+Theorem c15_command_arity : forall chk h ar tail n,
+  In (h, Some ar) command_heads -> arity_ok ar (List.length tail) = false ->
+  parse_command chk (SList (SAtom h :: tail)) n = PErr EGrammar.
+Proof. exact command_arity. Qed.
+Print Assumptions c15_command_arity.
+
+Theorem c15_action_arity : forall chk h ar tail n,
+  In (h, Some ar) action_heads -> arity_ok ar (List.length tail) = false ->
+  parse_action chk (SList (SAtom h :: tail)) n = PErr EGrammar.
+Proof. exact action_arity. Qed.
+
+Theorem c15_schedule_arity : forall chk h ar tail n,
+  In (h, Some ar) schedule_heads -> arity_ok ar (List.length tail) = false ->
+  parse_sched chk (SList (SAtom h :: tail)) n = PErr EGrammar.
+Proof. exact schedule_arity. Qed.
+
+(** * command level: `Parser::get_program_from_string(c.to_string())` = [c] up to the parser's normal
+    form [norm_command] (identity except `run-schedule`, whose schedules are wrapped in a Sequence and
+    re-parse to [rewrap]: K7), for every command satisfying the well-formedness predicate
+    [wf_command] (symbols are lexer-producible symbols, numbers fit an i64, option values do not
+    start with a colon, the head of a top-level call is not in the REGENERATED command-keyword table;
+    forms not yet covered are excluded by [wf_command] = False, see lib/propcfg/C15.py) *)
+Theorem c15_command_roundtrip :
+  forall (fmt_f64 : Z -> str) (parse_f64 : str -> option fl),
+    (forall x, finite_bits x -> numchars (fmt_f64 x)) ->
+    (forall x, finite_bits x -> fmt_f64 x <> []) ->
+    (forall x, finite_bits x -> parse_f64 (print_float fmt_f64 (FFin x)) = Some (FFin x)) ->
+    (forall s x, parse_f64 s = Some (FFin x) -> has_digit s = true) ->
+    forall chk c n, wf_command parse_f64 chk c ->
+      parse_program parse_f64 chk (print_command fmt_f64 c) n = POk ([norm_command c], n).
+Proof. exact command_roundtrip. Qed.
+Print Assumptions c15_command_roundtrip.
+
+Theorem c15_command_norm_identity : forall c, no_sched c -> norm_command c = c.
+Proof. exact norm_command_id. Qed.
+
+Theorem c15_command_norm_sched : forall s, flat (SSeq [rewrap s]) = flat s.
+Proof. exact norm_command_sched. Qed.
+
 (** non-vacuity: concrete well-formed inputs, and a concrete run of the model *)
 Example c15_wf_example : forall parse_f64,
   (forall s x, parse_f64 s = Some (FFin x) -> has_digit s = true) ->
@@ -148,3 +254,21 @@ Example c15_example :
                 (POk [CRule (mkRule [APanic [34; 92]] [FEq (EVar (s_ "x")) (ELit (LInt 1))] [34] (s_ "r") Naive true false)]))
   = true.
 Proof. vm_compute. reflexivity. Qed.
+
+Example c15_wf_command_example : forall parse_f64,
+  (forall s x, parse_f64 s = Some (FFin x) -> has_digit s = true) ->
+  wf_command parse_f64 true
+    (CFail (CAction (AUnion (ECall (s_ "g") [EVar (s_ "x"); ELit (LInt (-9223372036854775808))]) (ELit (LStr (s_ "a\b"))))))
+  /\ wf_command parse_f64 true (CPush 3)
+  /\ wf_command parse_f64 true (CAction (AExpr (ECall (s_ "g") [ELit (LInt 1)]))).
+Proof.
+  intros p H. split; [|split].
+  - split; [exact (c15_wf_example p H) | exact I].
+  - reflexivity.
+  - assert (wf_atom p (s_ "g")) as Hg
+      by (apply (word_atom p H); [repeat split; try discriminate | reflexivity ..]).
+    split; [|reflexivity]. split.
+    + simpl. split; [exact Hg|]. split; [right; reflexivity | exact I].
+    + exists (s_ "g"), [ELit (LInt 1)]. split; [reflexivity|].
+      unfold action_kw. intros [E|[E|[E|[E|[E|E]]]]]; discriminate E.
+Qed.
